@@ -84,6 +84,7 @@ type hist struct {
 	x       *lib.XChain
 	rep     *lib.Report
 	verbose bool
+	light   bool // long history: full store projection only every 40th operation and at the end
 
 	orc   []*lib.Oracle
 	spare []lib.Key
@@ -97,6 +98,7 @@ type hist struct {
 
 	ops   []Op
 	items []string // coq (op, obs) pairs
+	opsOnly []string // coq operations only (prefix of a transaction case)
 	mon   *monitor
 	cfg   string
 
@@ -176,7 +178,7 @@ func (h *hist) mkClaim(o Op, bridger string) crosschaintypes.ExternalClaim {
 		// variant 0 of every nonce names the same token contract (so a later one fails "bridge token is exist")
 		return &crosschaintypes.MsgBridgeTokenClaim{
 			EventNonce: o.Nonce, BlockHeight: 1000 + o.Nonce, TokenContract: h.extAddr(50 + o.Variant),
-			Name: "Tok", Symbol: fmt.Sprintf("TK%d", o.Variant), Decimals: 18,
+			Name: "Tok", Symbol: map[bool]string{true: fxtypes.DefaultDenom, false: fmt.Sprintf("TK%d", o.Variant)}[o.Variant == 0], Decimals: 18,
 			BridgerAddress: bridger, ChainName: h.module,
 		}
 	case "oset":
@@ -396,8 +398,13 @@ func (h *hist) apply(o Op) (accepted bool, errStr string) {
 			ob.acc = 2
 		}
 	}
+	h.opsOnly = append(h.opsOnly, coqOps...)
 	for _, co := range coqOps {
-		h.items = append(h.items, "("+co+", "+h.coqObs(ob)+")")
+		if h.light && len(h.ops)%40 != 0 {
+			h.items = append(h.items, fmt.Sprintf("(%s, mk_light %d %d %s)", co, ob.acc, ob.lastObs, lib.ZBig(ob.total)))
+		} else {
+			h.items = append(h.items, "("+co+", "+h.coqObs(ob)+")")
+		}
 	}
 	h.mon.after(o, pre, ob, err, events)
 	if h.verbose {
@@ -554,7 +561,14 @@ func (h *hist) coq() string {
 	return "mk_hist " + h.cfg + "\n\t[" + strings.Join(h.items, ";\n\t") + "]"
 }
 
-func (h *hist) finish() { h.mon.end() }
+func (h *hist) finish() {
+	if h.light {
+		// a final full comparison: an operation that changes nothing
+		h.light = false
+		h.apply(Op{Kind: "slash", List: nil})
+	}
+	h.mon.end()
+}
 
 func (h *hist) replay() Replay { return Replay{ChainSeed: h.seed, Module: h.module, Ops: append([]Op{}, h.ops...)} }
 
